@@ -174,6 +174,12 @@ class Resources:
         pattern = re.compile(r"^(\d+:)?(\d{2}:)?\d{2}:\d{2}$")
         return bool(pattern.match(time))
 
+    @staticmethod
+    def _convert_to_seconds(time: str) -> int:
+        # Formats are "MM:SS", "H:MM:SS", and "D:HH:MM:SS" (see `_is_valid_wall_time`)
+        units = (1, 60, 3600, 86400)
+        return sum(int(v) * unit for v, unit in zip(reversed(time.split(":")), units))
+
     def to_slurm_options(self) -> str:
         """Convert the Resources instance to SLURM options.
 
@@ -273,12 +279,12 @@ class Resources:
                 current_memory_gb = Resources._convert_to_gb(resources.memory)
                 if current_memory_gb > max_memory_gb:
                     max_data["memory"] = resources.memory
-            if resources.time is not None:
-                max_data["time"] = (
-                    resources.time
-                    if max_data["time"] is None
-                    else max(max_data["time"], resources.time)
-                )
+            if resources.time is not None and (
+                max_data["time"] is None
+                or Resources._convert_to_seconds(resources.time)
+                > Resources._convert_to_seconds(max_data["time"])
+            ):
+                max_data["time"] = resources.time
             if resources.partition is not None:
                 max_data["partition"] = resources.partition
 
